@@ -608,11 +608,31 @@ func clientPingPong(st *rpcState) {
 	w := st.world
 	body := st.rendered.Body
 	start := 0
+	dataFrames := func() int {
+		frames, _ := splitFrames(st.rw.Visible)
+		n := 0
+		for _, f := range frames {
+			if isDataFrame(st.plan.Client.Form, f.Flags) {
+				n++
+			}
+		}
+		return n
+	}
+	first := 0
+	if st.plan.Backend.ServerFirst {
+		// the handler speaks first: nothing is sent before its message has arrived
+		first = 1
+		if !w.Block("client.await-greeting", func() bool { return dataFrames() >= 1 || st.rw.finished }) {
+			st.ClientStuck = "waiting for the handler's first message"
+			return
+		}
+		w.Logf("client.greeted", "")
+	}
 	for k, end := range st.rendered.Bounds {
 		st.body.deliver(append([]byte(nil), body[start:end]...))
 		st.ReqSentSeq = append(st.ReqSentSeq, w.Logf("client.ping", "%d", k))
 		start = end
-		want := k + 1
+		want := k + 1 + first
 		ok := w.Block("client.await-pong", func() bool {
 			frames, _ := splitFrames(st.rw.Visible)
 			n := 0
@@ -638,7 +658,7 @@ func clientPingPong(st *rpcState) {
 			break // server finished early
 		}
 		st.RespFrameSeq = append(st.RespFrameSeq, w.Logf("client.pong", "%d", k))
-		st.ClientRounds = want
+		st.ClientRounds = k + 1
 	}
 	st.body.end(io.EOF)
 	w.Logf("client.end", "EOF")
